@@ -47,7 +47,7 @@ impl<S: BlobStore + BatchBlobStore + IterableBlobStore> Sut for BBI<S> {
 
 // ---- model ----------------------------------------------------------------------------------------------------
 #[derive(Default)]
-struct Model { live: BTreeMap<u32, Vec<u8>>, removed: BTreeSet<u32>, issued: BTreeSet<u32>, last_removed: Vec<u32>, ops_cap: Option<usize>, defer_len: bool, len_fail: std::cell::RefCell<Option<Fail>> }
+struct Model { live: BTreeMap<u32, Vec<u8>>, removed: BTreeSet<u32>, issued: BTreeSet<u32>, last_removed: Vec<u32>, ops_cap: Option<usize>, defer_len: bool, len_fail: std::cell::RefCell<Option<Fail>>, sample: Option<usize> }
 impl Model {
     /// record a successful put; a handed-out id must not name another live record
     fn issue(&mut self, id: u32, data: &[u8], what: &str) -> Res {
@@ -72,7 +72,15 @@ fn check_all(c: &mut Case, s: &dyn Sut, m: &Model, at: &str) -> Res {
         // `defer_len`: keep going so that a store whose len() is known to be broken still gets its contents checked; the len failure is reported at the end
         if m.defer_len { let mut g = m.len_fail.borrow_mut(); if g.is_none() { *g = Some(f); } } else { return Err(f); }
     }
+    // huge cases (`m.sample = Some(k)`): exact len, then the ids around the 2^16 / 2^17 boundaries, first / last and k random live ids
+    let sampled: Option<BTreeSet<u32>> = m.sample.filter(|&k| m.live.len() > k + 64).map(|k| {
+        let ids: Vec<u32> = m.live.keys().copied().collect(); let mut pick = BTreeSet::new();
+        for &i in ids.iter().take(8).chain(ids.iter().rev().take(8)) { pick.insert(i); }
+        for b in [255u32, 256, 65535, 65536, 65537, 131071, 131072, 131073] { for d in 0..3u32 { if let Some((&i, _)) = m.live.range((b + d).saturating_sub(1)..).next() { pick.insert(i); } } }
+        for pos in [65535usize, 65536, 65537, 131071, 131072, 131073] { if let Some(&i) = ids.get(pos) { pick.insert(i); } }
+        for _ in 0..k { pick.insert(ids[c.rng.usize_below(ids.len())]); } pick });
     for (&id, want) in &m.live {
+        if let Some(p) = &sampled { if !p.contains(&id) { continue; } }
         match st.get(id) {
             Ok(g) => { if &g != want { return Err(bad("get_mismatch", format!("{at}: get({id}) returned {} want {}", ab(&g), ab(want)))); } }
             Err(e) => return Err(bad("get_err_live", format!("{at}: get({id}) of a live record (len {}) failed: {e}", want.len()))),
@@ -145,6 +153,79 @@ fn record_pool(c: &mut Case, style: u32, pool: &[Vec<u8>]) {
     c.input("pool", &all);
 }
 
+// ---- large-input mode: the same store constructors are re-run with `huge_*` generator families ------------------------
+static MODE: std::sync::atomic::AtomicU8 = std::sync::atomic::AtomicU8::new(0);
+const MODE_SIZES: u8 = 1; const MODE_COUNT: u8 = 2;
+fn mode() -> u8 { MODE.load(std::sync::atomic::Ordering::Relaxed) }
+fn huge() -> bool { mode() != 0 }
+/// record sizes just around the 16 / 17 / 20-bit limits and a few MiB
+const HUGE_SIZES: &[usize] = &[65535, 65536, 65537, 131071, 131072, 131073, 131074, (1 << 20) - 1, 1 << 20, (1 << 20) + 1, 2 * (1 << 20) + 17, 3 * (1 << 20) + 5];
+const HUGE_SHAPES: u32 = 6;
+fn huge_shape_name(k: u32) -> &'static str { ["dominant", "all_equal", "long_runs", "short_period", "halves_XcXd", "text_over_small_alphabet"][(k % HUGE_SHAPES) as usize] }
+/// one record of exactly `len` bytes; it starts with its whole alphabet so that a coder trained on a prefix can encode it
+fn huge_record(r: &mut Rng, shape: u32, len: usize) -> Vec<u8> {
+    let a = r.next() as u8; let alpha: Vec<u8> = (0..9u8).map(|i| a.wrapping_add(i.wrapping_mul(29))).collect();
+    let mut v: Vec<u8> = Vec::with_capacity(len + 16);
+    v.extend_from_slice(&alpha);
+    match shape % HUGE_SHAPES {
+        0 => { let pc = 60 + r.below(40); while v.len() < len { v.push(if r.below(100) < pc { alpha[0] } else { alpha[1 + r.usize_below(8)] }); } }   // one symbol 60-99 %: count > 65535
+        1 => { v.clear(); v.resize(len, a); }
+        2 => { while v.len() < len { let b = alpha[r.usize_below(3)]; let n = 20000 + r.usize_below(90000); for _ in 0..n.min(len - v.len()) { v.push(b); } } }  // > 1000:1
+        3 => { let p = 1 + r.usize_below(7); let pat: Vec<u8> = (0..p).map(|i| alpha[i % 9]).collect(); while v.len() < len { v.push(pat[v.len() % p]); } }
+        4 => { let half = (len.saturating_sub(2)) / 2; let x: Vec<u8> = (0..half).map(|_| alpha[r.usize_below(9)]).collect(); v.clear(); v.extend_from_slice(&x); v.push(alpha[0]); v.extend_from_slice(&x); while v.len() < len { v.push(alpha[1]); } } // X c X d
+        _ => { while v.len() < len { let w = 1 + r.usize_below(12); let b = alpha[r.usize_below(9)]; for _ in 0..w { v.push(b); } v.push(alpha[8]); } }
+    }
+    v.truncate(len); v
+}
+fn huge_pool(c: &mut Case, cap: usize, n: usize) -> Vec<Vec<u8>> {
+    let sizes: Vec<usize> = HUGE_SIZES.iter().copied().filter(|&z| z <= cap).collect();
+    let mut pool = Vec::new(); let mut desc = String::new();
+    for i in 0..n { let shape = c.rng.below(HUGE_SHAPES as u64) as u32; let len = if i == 0 { *sizes.last().unwrap() } else { *c.rng.pick(&sizes) }; desc.push_str(&format!("{}:{} ", huge_shape_name(shape), len)); pool.push(huge_record(&mut c.rng, shape, len)); }
+    pool.push(Vec::new()); pool.push(pool[0][..7].to_vec());
+    c.input_str("huge_pool", &desc); for (i, p) in pool.iter().enumerate() { c.hash_more(&(p.len() as u64).to_le_bytes()); c.hash_more(&p[..p.len().min(4096)]); if i == 0 { c.input("first_record", p); } }
+    pool
+}
+/// largest record (bytes) a target gets in `huge_sizes`; None = family not applicable
+fn huge_size_cap(target: &str) -> Option<usize> {
+    if target == "zero_length" { return None; }
+    if target.starts_with("dictzip/") { return if ["dictzip/default", "dictzip/huf_x1", "dictzip/fse"].contains(&target) { Some(131074) } else { None }; }
+    if target.contains("huffman") || target.contains("plain") { return Some((1 << 20) + 1); }
+    Some(3 * (1 << 20) + 5)
+}
+/// number of records a target gets in `huge_count`; None = family not applicable (too slow per record, e.g. one fsync'ed file each)
+fn huge_count_n(target: &str, r: &mut Rng) -> Option<usize> {
+    // only stores with their own per-record bookkeeping and a cheap put: a zstd / Huffman context per record costs 50-1000 us, which
+    // at > 65536 records is far beyond the 2 s per case budget (and those wrappers delegate all id bookkeeping to the inner store)
+    Some(match target { "memory" => *r.pick(&[131073usize, 196609, 262145]), "zero_length" => *r.pick(&[65537usize, 131073, 200003]),
+        "lz4_mem" | "cached_wt" | "cached_wb" | "cached_wa" | "rans" | "huffman_untrained" => *r.pick(&[65537usize, 70001, 100003]), _ => return None })
+}
+fn tiny_record(i: usize, p: Prof) -> Vec<u8> { let b = (i as u32).to_le_bytes(); if p.batch_only_empty { vec![] } else if p.batch_nonempty { b[..1 + i % 3].to_vec() } else { b[..i % 4].to_vec() } }
+/// grow past several resize steps to > 65536 (> 131072) live records, then remove most, re-put, iterate; sampled exact oracle
+fn huge_count_run(c: &mut Case, s: &mut dyn Sut, m: &mut Model, p: Prof, n: usize) -> Res {
+    m.sample = Some(1500); c.input_str("n", &n.to_string());
+    let mut i = 0usize;
+    while i < n {
+        if i % 8192 == 8191 { let blobs: Vec<Vec<u8>> = (i..(i + 5).min(n)).map(|j| tiny_record(j, p)).collect();
+            match s.put_batch(blobs.clone()) { Some(Ok(ids)) => { ensure!(ids.len() == blobs.len(), "put_batch_len", "put_batch at record {i} returned {} ids", ids.len()); for (k, id) in ids.iter().enumerate() { m.issue(*id, &blobs[k], "put_batch")?; } i += blobs.len(); continue; } Some(Err(e)) => return Err(bad("__inconclusive", format!("put_batch refused at record {i}: {e}"))), None => {} } }
+        let rec = tiny_record(i, p);
+        match s.bs_mut().put(&rec) { Ok(id) => m.issue(id, &rec, &format!("put #{i}"))?, Err(_) => { c.note("put_err", 1); } }
+        i += 1;
+    }
+    c.set_nontrivial(m.live.len() > 65536);
+    check_all(c, s, m, "after growth")?; check_batch_iter(c, s, m, "after growth")?;
+    // remove ~60 % (re-index / rehash / shrink paths), some through remove_batch
+    let ids: Vec<u32> = m.live.keys().copied().collect(); let salt = c.rng.next();
+    let victims: Vec<u32> = ids.iter().copied().filter(|&i| (i as u64).wrapping_mul(0x9E3779B97F4A7C15).wrapping_add(salt) >> 32 & 7 < 5).collect();
+    let (batch, single) = victims.split_at(victims.len().min(2000));
+    match s.remove_batch(batch.to_vec()) { Some(Ok(k)) => { ensure!(k == batch.len(), "remove_batch_count", "remove_batch of {} live ids returned {k}", batch.len()); for &id in batch { m.unissue(id); } } Some(Err(_)) => { c.note("remove_batch_err", 1); } None => {} }
+    let mut rerr = 0u64; for &id in single { match s.bs_mut().remove(id) { Ok(()) => m.unissue(id), Err(_) => { rerr += 1; if rerr > 50 { break; } } } } c.note("remove_err", rerr);
+    check_all(c, s, m, "after mass removal")?;
+    for j in 0..3000usize { let rec = tiny_record(n + j, p); match s.bs_mut().put(&rec) { Ok(id) => m.issue(id, &rec, &format!("re-put #{j}"))?, Err(_) => { c.note("put_err", 1); } } }
+    let _ = s.bs_mut().flush();
+    check_all(c, s, m, "after re-put")?; check_batch_iter(c, s, m, "after re-put")?; s.coverage(c);
+    Ok(())
+}
+
 // ---- generic history over the BlobStore contract ---------------------------------------------------------------
 #[derive(Clone, Copy)]
 struct Prof { batch_nonempty: bool, batch_only_empty: bool, max_live: usize }
@@ -205,6 +286,26 @@ fn history(c: &mut Case, s: &mut dyn Sut, m: &mut Model, pool: &[Vec<u8>], p: Pr
 /// One history case over a freshly made store.
 fn hist_case<F>(ctx: &mut Ctx, target: &str, idx: u64, maxlen: usize, p: Prof, mk: F)
 where F: FnOnce(&mut Case, &[Vec<u8>]) -> Result<(Box<dyn Sut>, Model), Fail> {
+    if mode() == MODE_SIZES {
+        let Some(cap) = huge_size_cap(target) else { return };
+        ctx.case(target, "huge_sizes", idx, |c| {
+            let pool = huge_pool(c, cap, 3);
+            let (mut s, mut m) = mk(c, &pool)?;
+            let p = Prof { max_live: 5, ..p };
+            history(c, s.as_mut(), &mut m, &pool, p, 9)
+        });
+        return;
+    }
+    if mode() == MODE_COUNT {
+        if huge_count_n(target, &mut Rng::new(0)).is_none() { return; }
+        ctx.case(target, "huge_count", idx, |c| {
+            let Some(n) = huge_count_n(target, &mut c.rng) else { return Ok(()) };
+            let pool: Vec<Vec<u8>> = (0..24).map(|i| tiny_record(i, p)).collect();
+            let (mut s, mut m) = mk(c, &pool)?;
+            huge_count_run(c, s.as_mut(), &mut m, p, n)
+        });
+        return;
+    }
     let style = (idx % STYLES as u64) as u32;
     ctx.case(target, style_name(style), idx / STYLES as u64, |c| {
         let big = c.rng.chance(1, 12);
@@ -230,11 +331,11 @@ fn tag_huff(c: &mut Case, trained: &[u8], pool: &[Vec<u8>]) {
 }
 
 fn mutable_targets(ctx: &mut Ctx) {
-    let per = ctx.n(40, 1000) as u64;     // histories per cheap target
-    let per_io = ctx.n(24, 500) as u64;  // file backed
+    let per = if huge() { ctx.n(2, 30) as u64 } else { ctx.n(40, 1000) as u64 };     // histories per cheap target
+    let per_io = if huge() { ctx.n(1, 12) as u64 } else { ctx.n(24, 500) as u64 };  // file backed
     for idx in 0..per {
         hist_case(ctx, "memory", idx, 4096, PROF, |_c, _| fresh(BBI(MemoryBlobStore::new())));
-        hist_case(ctx, "zstd_mem", idx, 4096, PROF, |c, _| { let slow = c.rng.chance(1, 12); let lvl = if slow { *c.rng.pick(&[19i32, 22, 40]) } else { *c.rng.pick(&[1i32, 2, 3, 6, 9, 12, 0, -5]) }; c.input_str("level", &lvl.to_string());
+        hist_case(ctx, "zstd_mem", idx, 4096, PROF, |c, _| { let slow = !huge() && c.rng.chance(1, 12); let lvl = if slow { *c.rng.pick(&[19i32, 22, 40]) } else { *c.rng.pick(&[1i32, 2, 3, 6, 9, 12, 0, -5]) }; c.input_str("level", &lvl.to_string());
             let (s, mut m) = fresh(BBI(ZstdBlobStore::new(MemoryBlobStore::new(), lvl)))?; if slow { m.ops_cap = Some(6); } Ok((s, m)) });
         hist_case(ctx, "lz4_mem", idx, 4096, PROF, |_c, _| fresh(B(Lz4BlobStore::new(MemoryBlobStore::new()))));
         hist_case(ctx, "stack/lz4_zstd", idx, 4096, PROF, |_c, _| fresh(B(Lz4BlobStore::new(ZstdBlobStore::new(MemoryBlobStore::new(), 3)))));
@@ -264,7 +365,7 @@ fn mutable_targets(ctx: &mut Ctx) {
         hist_case(ctx, "stack/zstd_plain", idx, 4096, PROF, |_c, _| { let d = tempfile::tempdir().map_err(|e| bad("__inconclusive", format!("tempdir: {e}")))?; let s = ctor!(PlainBlobStore::create_new(d.path().join("st")), "plain"); fresh(Keep(BBI(ZstdBlobStore::new(s, 3)), d)) });
     }
     // PlainBlobStore: the directory is the saved form; reopening must answer identically and must not hand out a live id
-    for idx in 0..per_io {
+    for idx in 0..(if huge() { 0 } else { per_io }) {
         let style = (idx % STYLES as u64) as u32;
         ctx.case("plain_reopen", style_name(style), idx / STYLES as u64, |c| {
             let n = 4 + c.rng.usize_below(12); let pool = mk_pool(&mut c.rng, style, n, 2048); record_pool(c, style, &pool);
@@ -574,7 +675,7 @@ fn trie_targets(ctx: &mut Ctx) {
 
 // ---- DictZipBlobStore ----------------------------------------------------------------------------------------------
 fn dictzip_targets(ctx: &mut Ctx) {
-    let per = ctx.n(16, 400) as u64;
+    let per = if huge() { ctx.n(1, 12) as u64 } else { ctx.n(16, 400) as u64 };
     let presets = ["default", "text", "binary", "log", "realtime", "huf_x1", "huf_x2", "huf_x4", "huf_x8", "fse", "fse_x4"];
     for which in presets {
         for idx in 0..per {
@@ -594,6 +695,106 @@ fn dictzip_targets(ctx: &mut Ctx) {
                 let s = match b.finish() { Ok(s) => s, Err(e) => { c.note("builder_finish_err", 1); return Err(bad("__inconclusive", format!("DictZipBlobStoreBuilder::finish refused the training set: {e}"))); } };
                 let (bx, mut m) = fresh(DZ(s))?; m.ops_cap = Some(if which.starts_with("huf") || which.starts_with("fse") { 36 } else { 60 }); Ok((bx, m))
             });
+        }
+    }
+}
+
+// ---- large-input families for the bulk-built stores, the offset index and the trie store --------------------------------
+fn huge_count_records(c: &mut Case) -> Vec<Vec<u8>> {
+    let n = *c.rng.pick(&[65537usize, 100003, 131073]); let fixed = 4usize; let pc_fixed = *c.rng.pick(&[0u64, 50, 90, 100]);
+    c.input_str("n", &n.to_string()); c.input_str("percent_len4", &pc_fixed.to_string()); let salt = c.rng.next(); c.hash_more(&salt.to_le_bytes());
+    (0..n).map(|i| { let h = (i as u64 ^ salt).wrapping_mul(0x9E3779B97F4A7C15); let b = h.to_le_bytes(); if (h >> 40) % 100 < pc_fixed { b[..fixed].to_vec() } else { b[..(h >> 50) as usize % 8].to_vec() } }).collect()
+}
+fn huge_bulk_targets(ctx: &mut Ctx) {
+    let per = ctx.n(2, 30) as u64;
+    for idx in 0..per {
+        for fam in ["huge_count", "huge_sizes"] {
+            let mk = |c: &mut Case| -> Vec<Vec<u8>> { if fam == "huge_count" { huge_count_records(c) } else { let cap = if c.rng.bool() { (1 << 20) + 1 } else { 3 * (1 << 20) + 5 }; let mut r = huge_pool(c, cap, 3); r.push(vec![7u8; 5]); r } };
+            ctx.case("simplezip/default", fam, idx, |c| { let recs = mk(c); let store = ctor!(SimpleZipBlobStore::build_from(&recs, &SimpleZipConfig::default()), "build_from"); c.set_nontrivial(true); c.note("fragments", store.num_unique_fragments() as u64);
+                let ids: Vec<u32> = (0..recs.len() as u32).collect(); check_bulk(c, &mut BBI(store), &ids, &recs, "built store") });
+            ctx.case("mixedlen/auto", fam, idx, |c| { let recs = mk(c); let store = ctor!(MixedLenBlobStore::build_from(&recs), "build_from"); c.set_nontrivial(true); c.note("fixed", store.fixed_count() as u64); c.note("variable", store.variable_count() as u64);
+                let ids: Vec<u32> = (0..recs.len() as u32).collect(); check_bulk(c, &mut BBI(store), &ids, &recs, "built store") });
+            ctx.case("mixedlen/fixed", fam, idx, |c| { let recs = mk(c); let fl = if fam == "huge_count" { 4 } else { recs[c.rng.usize_below(recs.len())].len() }; c.input_str("fixed_len", &fl.to_string());
+                let store = ctor!(MixedLenBlobStore::build_from_with_fixed_len(&recs, fl), "build_from_with_fixed_len"); c.set_nontrivial(true); c.note("fixed", store.fixed_count() as u64); c.note("variable", store.variable_count() as u64);
+                let ids: Vec<u32> = (0..recs.len() as u32).collect(); check_bulk(c, &mut BBI(store), &ids, &recs, "built store") });
+        }
+    }
+    // ZipOffset builders: one large case per family (behind the known finish() placeholder finding on the unchanged tree)
+    for idx in 0..ctx.n(1, 8) as u64 {
+        for fam in ["huge_count", "huge_sizes"] {
+            // huge_count runs uncompressed (one zstd context per record would cost 4 s for 65537 records): a fixed member of the custom family
+            let tl: &[(&str, bool)] = if fam == "huge_count" { &[("zipoffset/custom", false), ("zipoffset_batch/custom", true)] } else { &[("zipoffset/default", false), ("zipoffset/perf", false), ("zipoffset_batch/default", true)] };
+            for &(t, batch) in tl {
+                ctx.case(t, fam, idx, |c| { let cfg = if fam == "huge_count" { let k = ZipOffsetBlobStoreConfig { compress_level: 0, checksum_level: *c.rng.pick(&[0u8, 2]), ..ZipOffsetBlobStoreConfig::default() }; c.input_str("cfg", &format!("{k:?}")); k } else { zo_cfg(c, if t.ends_with("perf") { "perf" } else { "default" }) };
+                    let recs = if fam == "huge_count" { let n = 65537 + c.rng.usize_below(500); c.input_str("n", &n.to_string()); (0..n).map(|i| (i as u32).to_le_bytes()[..i % 4].to_vec()).collect::<Vec<_>>() } else { huge_pool(c, (1 << 20) + 1, 3) };
+                    c.tag("nonempty_input"); tag_suv_span(c, &cfg.offset_config, recs.len() + 1);
+                    let mut ids = Vec::new();
+                    let store = if batch { let mut b = ctor!(BatchZipOffsetBlobStoreBuilder::with_config(cfg, 64), "batch builder"); for r in &recs { match b.add_record(r) { Ok(id) => ids.push(id), Err(_) => { c.note("add_record_err", 1); return Ok(()); } } } match b.finish() { Ok(s) => s, Err(_) => { c.note("finish_err", 1); return Ok(()); } } }
+                        else { let mut b = ctor!(ZipOffsetBlobStoreBuilder::with_config(cfg), "builder"); for r in &recs { match b.add_record(r) { Ok(id) => ids.push(id), Err(_) => { c.note("add_record_err", 1); return Ok(()); } } } match b.finish() { Ok(s) => s, Err(_) => { c.note("finish_err", 1); return Ok(()); } } };
+                    c.set_nontrivial(true); let pos: Vec<u32> = (0..recs.len() as u32).collect(); let mut w = B(store); let mut m = Model::default(); m.sample = Some(3000);
+                    for (i, id) in pos.iter().enumerate() { m.issue(*id, &recs[i], "builder")?; }
+                    check_all(c, &w, &m, "built store")?; let _ = w.bs_mut().put(b"x");
+                    if !batch { for (i, id) in ids.iter().enumerate() { ensure!(*id as usize == i, "bulk_id_order", "add_record #{i} returned id {id}"); } }
+                    // reload paths with the sampled oracle
+                    let mut buf = Vec::new(); if let Err(e) = w.0.save_to_writer(&mut buf) { return Err(bad("save_err", format!("save_to_writer failed: {e}"))); }
+                    let loaded = match ZipOffsetBlobStore::load_from_reader(&mut &buf[..]) { Ok(x) => x, Err(e) => return Err(bad("load_err", format!("load_from_reader of {} saved bytes failed: {e}", buf.len()))) };
+                    pre("reload_", check_all(c, &B(loaded), &m, "after save_to_writer/load_from_reader")) });
+            }
+        }
+    }
+    // offset index with > 65536 / > 131072 entries and with offsets beyond 2^32
+    for which in ["default", "perf", "custom"] {
+        for idx in 0..ctx.n(2, 30) as u64 {
+            for fam in ["huge_count", "huge_offsets"] {
+                ctx.case(&format!("suv/{which}"), fam, idx, |c| {
+                    let mut cfg = suv_cfg(c, which); if which == "custom" && fam == "huge_offsets" { cfg.sample_width = cfg.sample_width.max(34); } c.input_str("cfg", &format!("{cfg:?}"));
+                    let n = *c.rng.pick(&[65537usize, 131073, 200001]); c.input_str("n", &n.to_string());
+                    let maxstep = ((1u64 << cfg.offset_width) / cfg.block_size() as u64).clamp(1, 300);
+                    let mut cur = if fam == "huge_offsets" { (1u64 << 32) - c.rng.below(maxstep * n as u64 / 2 + 1) } else { c.rng.below(1000) }; c.input_str("start", &cur.to_string()); let salt = c.rng.next(); c.hash_more(&salt.to_le_bytes());
+                    let mut vals = Vec::with_capacity(n); for i in 0..n { vals.push(cur); cur += ((i as u64 ^ salt).wrapping_mul(0x9E3779B97F4A7C15) >> 33) % (maxstep + 1); }
+                    let bsz = cfg.block_size(); let mut delta_over = false; let mut sample_over = false;
+                    for (i, v) in vals.iter().enumerate() { let bm = vals[i - i % bsz]; if v - bm >= (1u64 << cfg.offset_width) { delta_over = true; } if cfg.sample_width < 64 && bm >= (1u64 << cfg.sample_width) { sample_over = true; } }
+                    if delta_over { c.tag("delta_exceeds_offset_width"); } if sample_over { c.tag("block_min_exceeds_sample_width"); } tag_suv_span(c, &cfg, n);
+                    let mut b = SortedUintVecBuilder::with_config(cfg); for v in &vals { if let Err(e) = b.push(*v) { return Err(bad("suv_push_err", format!("push({v}) of a non-decreasing value failed: {e}"))); } }
+                    let sv = match b.finish() { Ok(s) => s, Err(e) => { if delta_over || sample_over { c.note("finish_err_width", 1); return Ok(()); } return Err(bad("suv_finish_err", format!("finish failed although every delta and every block sample fits: {e}"))); } };
+                    c.set_nontrivial(true); ensure!(sv.len() == n, "suv_len", "len()={} want {n}", sv.len());
+                    for i in 0..n { match sv.get(i) { Ok(v) if v == vals[i] => {}, other => return Err(bad("suv_get", format!("get({i})={other:?} want {} (n={n}, cfg {cfg:?})", vals[i]))) } c.ev(1); }
+                    for i in (0..n - 1).step_by(7).chain(65530..65540).chain(n - 3..n - 1).filter(|&i| i + 1 < n) { match sv.get2(i) { Ok((a, b2)) if a == vals[i] && b2 == vals[i + 1] => {}, other => return Err(bad("suv_get2", format!("get2({i})={other:?} want ({}, {})", vals[i], vals[i + 1]))) } c.ev(1); }
+                    ensure!(sv.get(n).is_err(), "suv_get_oob", "get(len) returned Ok"); ensure!(sv.get2(n - 1).is_err(), "suv_get2_oob", "get2(len-1) returned Ok");
+                    let mut out = vec![0u64; bsz]; for blk in (0..sv.num_blocks()).step_by(3).chain(sv.num_blocks() - 1..sv.num_blocks()) { if let Err(e) = sv.get_block(blk, &mut out) { return Err(bad("suv_get_block", format!("get_block({blk}) failed: {e}"))); } for j in 0..bsz { let i = blk * bsz + j; if i < n { ensure!(out[j] == vals[i], "suv_get_block", "get_block({blk})[{j}]={} want {}", out[j], vals[i]); c.ev(1); } } }
+                    Ok(()) });
+            }
+        }
+    }
+}
+
+fn huge_trie_targets(ctx: &mut Ctx) {
+    for which in ["default", "perf", "mem", "sec"] {
+        for idx in 0..ctx.n(1, 12) as u64 {
+            // (no `huge_count` for the trie store: its Patricia backend allocates a 256-slot node per key byte and a zstd context per record;
+            //  65537 records cost > 60 s CPU, so element counts > 2^16 are not reachable within the case budget)
+            // full 256-way fan-out under one long prefix, a second level, keys that differ only in their first (high) byte; then removals down to one child
+            ctx.case(&format!("trie_keys/{which}"), "huge_fanout", idx, |c| {
+                if !trie_cfg(which).enable_statistics { c.tag("statistics_disabled"); } if which == "mem" { c.tag("louds_trie"); } c.tag("key_has_nul");
+                let plen = *c.rng.pick(&[1usize, 40, 200]); let prefix: Vec<u8> = (0..plen).map(|i| b'a' + (i % 7) as u8).collect(); let x = c.rng.next() as u8; let suffix = vec![b'z'; 30]; c.input_str("prefix_len", &plen.to_string()); c.input("second_level_under", &[x]);
+                let mut keys: Vec<Vec<u8>> = Vec::new();
+                for b in 0..=255u8 { let mut k = prefix.clone(); k.push(b); keys.push(k); }
+                for b in 0..=255u8 { let mut k = prefix.clone(); k.push(x); k.push(b); keys.push(k); }
+                for b in 0..=255u8 { let mut k = vec![b]; k.extend_from_slice(&suffix); keys.push(k); }
+                c.rng.shuffle(&mut keys);
+                let mut t = BBI(ctor!(Trie::new(trie_cfg(which)), "new")); let mut m = Model::default(); m.defer_len = true; let mut km = KeyModel::default();
+                for (i, k) in keys.iter().enumerate() { let v = tiny_record(i + 1, PROF); match t.0.put_with_key(k, &v) { Ok(id) => { m.issue(id, &v, "put_with_key")?; km.latest.insert(k.clone(), (id, v.clone())); km.key_of.insert(id, k.clone()); } Err(_) => { c.note("put_key_err", 1); } } }
+                c.set_nontrivial(km.latest.len() >= 256);
+                check_all(c, &t, &m, "after fan-out")?; check_keys(c, &mut t.0, &km, "after fan-out", true)?;
+                // remove every child of the prefix node except one, in random order
+                let keep = c.rng.next() as u8; let mut victims: Vec<(u32, Vec<u8>)> = km.key_of.iter().filter(|(_, k)| k.len() == plen + 1 && k.starts_with(&prefix) && k[plen] != keep).map(|(i, k)| (*i, k.clone())).collect(); c.rng.shuffle(&mut victims);
+                let mut rerr = 0u64; for (id, k) in victims { match t.0.remove(id) { Ok(()) => { m.unissue(id); km.key_of.remove(&id); km.latest.remove(&k); } Err(_) => rerr += 1 } } c.note("remove_err", rerr);
+                check_all(c, &t, &m, "after removals down to one child")?; check_keys(c, &mut t.0, &km, "after removals down to one child", true)?;
+                let mut pfx = prefix.clone(); let want: Vec<Vec<u8>> = km.latest.keys().filter(|k| k.starts_with(&pfx)).cloned().collect();
+                match t.0.get_by_prefix(&pfx) { Ok(got) => { let gk: Vec<Vec<u8>> = got.into_iter().map(|(k, _)| k).collect(); ensure!(gk == want, "prefix_keys_mismatch", "get_by_prefix(prefix) returned {} keys want {}", gk.len(), want.len()); } Err(e) => return Err(bad("prefix_err", format!("get_by_prefix failed: {e}"))) }
+                pfx.push(x); let want2 = km.latest.keys().filter(|k| k.starts_with(&pfx)).count();
+                match t.0.get_by_prefix(&pfx) { Ok(got) => ensure!(got.len() == want2, "prefix_keys_mismatch", "get_by_prefix(prefix+x) returned {} keys want {want2}", got.len()), Err(e) => return Err(bad("prefix_err", format!("get_by_prefix failed: {e}"))) }
+                Ok(()) });
         }
     }
 }
@@ -641,4 +842,9 @@ pub fn run(ctx: &mut Ctx) {
     bulk_targets(ctx);
     trie_targets(ctx);
     dictzip_targets(ctx);
+    // large-input families (names start with `huge_`), appended so that the sequence numbers of the cases above do not move
+    for md in [MODE_SIZES, MODE_COUNT] { MODE.store(md, std::sync::atomic::Ordering::Relaxed); mutable_targets(ctx); dictzip_targets(ctx); }
+    MODE.store(0, std::sync::atomic::Ordering::Relaxed);
+    huge_bulk_targets(ctx);
+    huge_trie_targets(ctx);
 }
